@@ -22,7 +22,7 @@ from vf.sched import controller as ctlmod
 OK_KINDS = ('ok', 'ok_none')
 FAIL_KINDS = ('raise', 'failed')
 MALFORMED_KINDS = ('none', 'notpair3', 'notpair0', 'int', 'badstatus',
-                   'badstatus_int', 'badupdate', 'badupdate_list')
+                   'badstatus_int', 'badupdate', 'badupdate_list', 'conflict')
 NONFINAL_KINDS = ('nonfinal_waiting', 'nonfinal_pending')
 
 
@@ -163,6 +163,10 @@ class Monitor:
             return 7, TaskStatus.DONE
         if kind == 'badupdate_list':
             return [1, 2], TaskStatus.DONE
+        if kind == 'conflict':
+            # a mapping that cannot be merged into the environment: the
+            # entry of the task holds a non-mapping under that key
+            return {name: {'status': {'x': 1}}}, TaskStatus.DONE
         if kind == 'nonfinal_waiting':
             return {}, TaskStatus.WAITING
         if kind == 'nonfinal_pending':
